@@ -213,6 +213,9 @@ class CompMixin:
       self.close_gen(gen, saved)
     if not d.indexed:
       raise Unsupported('list from unordered iteration (line %d)' % node.lineno)
+    if isinstance(elt, PyTuple) and elt.items and all(isinstance(i, V) for i in elt.items):
+      ts = S.Tup(*[i.sort for i in elt.items])
+      elt = V(ts, ts.make([i.t for i in elt.items]))
     if not isinstance(elt, V):
       if elt is NONE and z3.is_false(d.cond):
         return PyTuple([])
@@ -226,7 +229,10 @@ class CompMixin:
       if bvars:
         arr = z3.Lambda([d.var], elt.t)   # nested inside another binder: keep it a term
       else:
-        self.assume(z3.ForAll([d.var], z3.Select(arr, d.var) == elt.t, patterns=[z3.Select(arr, d.var)]))
+        pats = [z3.Select(arr, d.var)]
+        if isinstance(d.elem, V):
+          pats.append(d.elem.t)   # also fire when the source element is mentioned
+        self.assume(S.forall_pat([d.var], z3.Select(arr, d.var) == elt.t, pats))
       return V(ss, ss.mk(arr, d.length))
     # filtered: an order-preserving subsequence, axiomatised
     filt = z3.And(*conds[1:])
@@ -317,6 +323,7 @@ class CompMixin:
     b['True'] = Vl.bval(True)
     b['NotImplemented'] = Vl.Sentinel('NotImplemented')
     b['hash'] = B('hash', _b_hash)
+    b['itertools.chain'] = B('chain', _b_chain)
     b['id'] = B('id', lambda ex, a, k, n: Vl.ival(id(a[0])))
     b['False'] = Vl.bval(False)
     # spec-only
@@ -397,10 +404,45 @@ def _b_tuple(ex, a, k, n):
   raise Unsupported('tuple(%r)' % (v,))
 
 
+def _b_chain(ex, a, k, n):
+  """itertools.chain(*iterables) consumed by a for loop: the concatenated sequence."""
+  seqs = []
+  for v in a:
+    if isinstance(v, Gen):
+      v = ex.comp_list(v)
+    elif not (isinstance(v, V) and isinstance(v.sort, S.Seq)):
+      v = ex.iter_to_seq(v, n)
+    seqs.append(v)
+  r = seqs[0]
+  for v in seqs[1:]:
+    if isinstance(v, PyTuple):
+      v = ex.coerce(v, r.sort)
+    if isinstance(r, PyTuple):
+      r = ex.coerce(r, v.sort)
+    r = V(r.sort, r.sort.concat(r.t, v.t))
+  return r
+
+
 def _b_dict(ex, a, k, n):
   if not a:
     return PyTuple([])
   v = a[0]
+  if isinstance(v, tuple) and v and v[0] == 'zip' and len(v[1]) == 2:
+    # dict(zip(keys, values)): later pairs win
+    ks, vs = v[1]
+    if isinstance(ks, PyTuple):
+      raise Unsupported('dict(zip()) of python tuple')
+    ksrt, vsrt = ks.sort, vs.sort
+    ds = S.DictOf(ksrt.elem, vsrt.elem)
+    i, j = z3.FreshConst(z3.IntSort(), 'i'), z3.FreshConst(z3.IntSort(), 'j')
+    m = z3.If(ksrt.len(ks.t) < vsrt.len(vs.t), ksrt.len(ks.t), vsrt.len(vs.t))
+    y = ksrt.elem.fresh('y')
+    dom = z3.Lambda([y], z3.Exists([i], z3.And(0 <= i, i < m, ksrt.at(ks.t, i) == y)))
+    va = z3.FreshConst(z3.ArraySort(ksrt.elem.z3(), vsrt.elem.z3()), 'zvals')
+    later = z3.Exists([j], z3.And(i < j, j < m, ksrt.at(ks.t, j) == ksrt.at(ks.t, i)))
+    ex.assume(z3.ForAll([i], z3.Implies(z3.And(0 <= i, i < m, z3.Not(later)),
+                                        z3.Select(va, ksrt.at(ks.t, i)) == vsrt.at(vs.t, i))))
+    return V(ds, ds.mk(dom, va))
   if isinstance(v, V) and isinstance(v.sort, S.DictOf):
     return V(v.sort, v.t)
   if isinstance(v, Gen):
